@@ -6,13 +6,14 @@ from ..observe import run as brun
 
 PID = 'C19'
 FLAGS = [(True, True), (True, False), (False, True), (False, False)]
+NF = 8      # flag combination x successor-list order (as produced / reversed)
 
 
 def lm_plain(lm):
     return {int(a): [int(x) for x in b] for a, b in lm.items()}
 
 
-def transition(r, k, acc0, flag, path):
+def transition(r, k, acc0, flag, path, rev=False):
     """One real remove_nasty_arc call from the state acc0 (numpy, not modified).  Returns the next
     accessor (numpy) or None when the call raised."""
     import dsw
@@ -21,8 +22,11 @@ def transition(r, k, acc0, flag, path):
     st, lm, _ = brun(dsw.accessor_to_latter_map, acc)
     if st != 'ok':
         return None
+    if rev:      # the order in which a latter map lists successors carries no meaning
+        lm = {a: list(b)[::-1] for a, b in lm.items()}
     pre_lm = lm_plain(lm)
-    case = {'k': k, 'arcs': RP.garcs(U.rows(acc0)), 'flag': list(flag), 'path': path}
+    case = {'k': k, 'arcs': RP.garcs(U.rows(acc0)), 'flag': list(flag), 'path': path, 'rev': rev}
+    ref = O.ref_scores(U.rows(acc0), k, flag[0], flag[1])
     sig = 'C19|k=%d|' % k
     # scores of the pre-state, computed on a copy
     st, sc0, _ = brun(dsw.calculate_intersection_score, latter_map=copy.deepcopy(lm), observed_length=k,
@@ -36,6 +40,8 @@ def transition(r, k, acc0, flag, path):
             sc = None
         elif np.any((sc > 0) & (acc0 < 0)):
             r.v(sig + 'positive-score-on-missing-arc', 'step', case)
+        elif U.rows(sc) != ref:
+            r.v(sig + 'scores-differ-from-a-fresh-computation', 'step', case, None, None, 'calculate_intersection_score on a copy of the pre-state vs reference')
     else:
         sc = None
     st, res, _ = brun(dsw.remove_nasty_arc, accessor=acc, latter_map=lm, has_insertion=flag[0], has_deletion=flag[1], lim=50000000)
@@ -62,16 +68,16 @@ def transition(r, k, acc0, flag, path):
         r.v(sig + 'changed-entry-was-not-an-arc-or-not-cleared', 'step', case, None, [u, j, int(acc0[u, j]), int(acc2[u, j])])
     if (former, latter) != (u, int(acc0[u, j])):
         r.v(sig + 'reported-arc-is-not-the-removed-arc', 'step', case, [u, int(acc0[u, j])], [former, latter])
-    if sc is not None:
-        mx = int(sc.max())
-        if int(sc[u, j]) != mx:
-            r.v(sig + 'removed-arc-does-not-have-maximum-score', 'step', case, mx, int(sc[u, j]))
-        r.out.add(mx)
+    mx = max(max(row) for row in ref)
+    if ref[u][j] != mx:
+        r.v(sig + 'removed-arc-does-not-have-maximum-score', 'step', case, mx, ref[u][j])
+    r.out.add(mx)
     # both views describe the same graph
     G2 = U.rows(acc2)
     exp_lm = {v: [w for w in G2[v] if w >= 0] for v in range(n) if any(w >= 0 for w in G2[v])}
     try:
-        got_lm = lm_plain(lm2)
+        got_lm = {a: sorted(b) for a, b in lm_plain(lm2).items()}
+        exp_lm = {a: sorted(b) for a, b in exp_lm.items()}
     except Exception:
         got_lm = None
     if got_lm != exp_lm:
@@ -99,7 +105,7 @@ def explore(r, k, G, max_changes, cap):
 
     def search(mc, limit):
         seen = set()
-        stack = [(acc0.tobytes(), fi, 0, 0) for fi in range(4)]
+        stack = [(acc0.tobytes(), fi, 0, 0) for fi in range(NF)]
         while stack:
             sb, fi, ch, depth = stack.pop()
             if (sb, fi, ch) in seen:
@@ -111,7 +117,7 @@ def explore(r, k, G, max_changes, cap):
                     capped[0] = True
                     continue
                 acc = np.frombuffer(sb, dtype=acc0.dtype).reshape(acc0.shape)
-                nxt = transition(r, k, acc, FLAGS[fi], depth)
+                nxt = transition(r, k, acc, FLAGS[fi % 4], depth, rev=fi >= 4)
                 cache[key] = None if nxt is None else nxt.tobytes()
                 ntrans[0] += 1
             nb = cache[key]
@@ -119,7 +125,7 @@ def explore(r, k, G, max_changes, cap):
                 r.maxi('longest_sequence', depth)
                 continue
             states.add(nb)
-            for f2 in range(4):
+            for f2 in range(NF):
                 c2 = ch + (1 if f2 != fi else 0)
                 if c2 <= mc:
                     stack.append((nb, f2, c2, depth + 1))
@@ -138,7 +144,7 @@ def explore(r, k, G, max_changes, cap):
 
 def check_case(r, kind, case):
     G = RP.graph_of(case)
-    transition(r, case['k'], U.A(G), tuple(case['flag']), case.get('path', 0))
+    transition(r, case['k'], U.A(G), tuple(case['flag']), case.get('path', 0), rev=bool(case.get('rev')))
 
 
 def _w(chunk):
